@@ -76,3 +76,29 @@ Theorem C18_lone_date_rejected_whatever_its_sign : forall r,
   nonzero (r_start r) <> nonzero (r_end r) -> exists n, decide_raw r = CReject n.
 Proof. intros r H. unfold decide_raw. apply lone_date_rejected. exact H. Qed.
 Print Assumptions C18_lone_date_rejected_whatever_its_sign.
+
+(* ---------- the whole command (Model/Job.v: main.go's Run end to end, on a file system) ---------- *)
+From Coq Require Import String.
+From Model Require Import Json Tables Walker Line Stream KeyFile Atlas Job.
+From Proofs Require Import JobProofs.
+
+(* a rejection leaves the world as it was: same file system, nothing on standard output, no request, status 1 *)
+Theorem C18_job_reject_changes_nothing : forall tb cs a w r,
+  decide (flags_of a w) = CReject r ->
+  job tb cs a w = {| j_fs := w_fs w; j_stdout := []; j_trace := []; j_tmp_left := 0; j_status := Exit1 |}.
+Proof. intros. erewrite job_reject by eassumption. reflexivity. Qed.
+Print Assumptions C18_job_reject_changes_nothing.
+
+(* and an accepted job writes nowhere but to its output file(s) and its key file: every other path - the input file
+   included - is, at the end of the run, what it was *)
+Theorem C18_job_frame : forall tb cs a w q,
+  q <> a_out a -> q <> a_keyfile a -> (forall i, q <> (a_out a ++ "." ++ dec_of_nat i)%string) ->
+  j_fs (job tb cs a w) q = w_fs w q.
+Proof. exact job_frame. Qed.
+Print Assumptions C18_job_frame.
+
+(* local jobs never touch the network *)
+Theorem C18_job_local_no_requests : forall tb cs a w m,
+  decide (flags_of a w) = CAccept m -> m <> MAtlas -> j_trace (job tb cs a w) = [].
+Proof. exact job_local_no_requests. Qed.
+Print Assumptions C18_job_local_no_requests.
